@@ -23,7 +23,7 @@ class SegmentEnd:
   """
 
   def __new__(cls, *args):
-    if isinstance(args[0], SegmentEnd):
+    if args and isinstance(args[0], SegmentEnd):
       return args[0]
     else:
       new_instance = object.__new__(cls)
